@@ -194,7 +194,7 @@ func TestPairing(t *testing.T) {
 	if !gtExp(base, r).IsOne() {
 		t.Fatalf("e(G1, G2)^r != 1")
 	}
-	vlib.Check(t, 400, func(t *rapid.T) {
+	vlib.Check(t, 320, func(t *rapid.T) {
 		kind := rapid.SampledFrom([]string{"dlog", "dlog", "bilinear", "additive-left", "additive-right", "negation", "multipair", "multipair", "engine", "identity", "order"}).Draw(t, "kind")
 		p, q := drawPQ(t, "0")
 		e := pairOrFail(t, p.lib, q.lib)
